@@ -1,29 +1,76 @@
 from vp.api import Q, Mutant
 TITLE = "Task buffers and heaps keep every task and prefer the best"
-OUTSIDE = []
-ASSUMPTIONS = []
-BOUNDS = {}
-CLAIMED = False
 MH = "parsec/maxheap.c"
-CVP = [("parsec/include/parsec/parsec_config_bottom.h", r"\(\*\(\(int\*\)\(\(\(uintptr_t\)\(it\)\)\+off\)\)\)", "(*((int*)(((char*)(it))+(off))))")]
 HB = "parsec/hbbuffer.c"
-HBOPS = {"push_all": 0, "push_prio": 1, "pop_best": 2, "new": 3}
+OUTSIDE = ["concurrent pushes/pops on one hbbuffer (the CAS retry paths; 'pop_best returns the best' is only claimed for a quiescent buffer, as the property says)",
+           "heaps of more than SMAX tasks / buffers of more than HBSZ slots (inductive in the number of operations, not in the size)",
+           "the scheduler modules that combine heaps and buffers (C08/C09)",
+           "allocation failure of heap_create / heap_insert's scratch array"]
+ASSUMPTIONS = ["tasks are interchangeable objects: slot i / heap node k hold the static object with the same number (canonical naming; the code compares task addresses only for equality); priorities, sizes, occupancy stay symbolic",
+               "push_all_by_priority receives a ring in non-increasing priority order (comment in hbbuffer.c: 'Because list is in decreasing priority order'; schedulers build it with parsec_list_item_ring_push_sorted)",
+               "tasks resting in a buffer slot are singleton rings (they were stored by these functions)",
+               "parsec_task_t's locals[]/data[] arrays are shrunk to one entry for the harness TU (MAX_LOCAL_COUNT/MAX_PARAM_COUNT = 1; never accessed by the units): CBMC copies whole structs on symbolic-pointer writes",
+               "hbbuffer_t.items[1] (struct hack) is widened to items[VP_HBSZ] on an overlay copy of hbbuffer.h; COMPARISON_VAL's integer round trip is rewritten to char* arithmetic for the hbbuffer queries (equivalent)",
+               "libc stubs for maxheap.c: free() records its argument (the heap header is a static object), calloc() hands out zeroed static typed storage (one heap header, one scratch pointer array)"]
+BOUNDS = {"quick": {"heap tasks": "<=5", "buffer slots": "1..3", "ring": "1..4", "priorities": "any int32"},
+          "thorough": {"heap tasks": "<=7", "buffer slots": "1..4", "ring": "1..4", "priorities": "any int32"}}
+CVP = [("parsec/include/parsec/parsec_config_bottom.h", r"\(\*\(\(int\*\)\(\(\(uintptr_t\)\(it\)\)\+off\)\)\)", "(*((int*)(((char*)(it))+(off))))")]
+HBOPS = {"push_all": 0, "push_prio": 1, "pop_best": 2, "new": 3, "seq": 4}
 MHOPS = {"insert": 0, "remove": 1, "split": 2, "create": 3}
+MHF = {"insert": ["heap_insert"], "remove": ["heap_remove", "heap_destroy"], "split": ["heap_split_and_steal", "heap_create", "heap_destroy", "hiBit"], "create": ["heap_create", "heap_insert"]}
+HBF = {"push_all": ["parsec_hbbuffer_push_all"], "push_prio": ["parsec_hbbuffer_push_all_by_priority"], "pop_best": ["parsec_hbbuffer_pop_best", "parsec_hbbuffer_approx_occupency"],
+       "new": ["parsec_hbbuffer_new", "parsec_hbbuffer_is_empty"], "seq": ["parsec_hbbuffer_push_all_by_priority", "parsec_hbbuffer_pop_best"]}
 
 def queries(ctx):
     qs = []
     def mh(op, smax, tiers=("quick", "thorough"), timeout=1800):
-        qs.append(Q("heap_%s_s%d" % (op, smax), ["mh.c"], defs=["OP=%d" % MHOPS[op], "SMAX=%d" % smax, "free=vp_free"], unwind=smax + 3,
-                    units=[MH, "parsec/maxheap.h"], object_bits=10, timeout=timeout, tiers=tiers, info={}, mem_gb=8))
-    for op in MHOPS:
-        mh(op, 5)
+        qs.append(Q("heap_%s_s%d" % (op, smax), ["mh.c"], defs=["OP=%d" % MHOPS[op], "SMAX=%d" % smax, "free=vp_free", "calloc=vp_calloc"], unwind=smax + 3,
+                    unwindset=["vp_calloc.0:17", "vp_calloc.1:9"], units=[MH, "parsec/maxheap.h"], object_bits=10, timeout=timeout, tiers=tiers, mem_gb=8,
+                    info={"symbolic": ["heap size 0..%d" % smax, "priorities (any int32) under the max-heap order", "stale links of the inserted task / of the heap header"],
+                          "enumerated": ["operation kind", "canonical task naming"], "stubs": ["free (records)", "calloc (static typed storage)"],
+                          "bounds": {"tasks": smax}, "functions": MHF[op]}))
     def hb(op, hbsz, nring, tiers=("quick", "thorough"), timeout=1800):
         qs.append(Q("hbb_%s_b%dr%d" % (op, hbsz, nring), ["hb.c"], defs=["OP=%d" % HBOPS[op], "VP_HBSZ=%d" % hbsz, "NRING=%d" % nring], unwind=hbsz + nring + 2,
-                    units=[HB, "parsec/hbbuffer.h"], object_bits=10, timeout=timeout, tiers=tiers, info={},
-                    mem_gb=8, patches=[("parsec/hbbuffer.h", r"items\[1\]", "items[VP_HBSZ]")] + CVP))
+                    unwindset=["parsec_hbbuffer_pop_best.0:%d" % (hbsz + 1), "parsec_hbbuffer_pop_best.1:2", "parsec_hbbuffer_push_all.2:%d" % (nring + 1),
+                               "parsec_hbbuffer_push_all.1:%d" % (hbsz + 1), "parsec_hbbuffer_push_all_by_priority.3:%d" % (nring + 1),
+                               "parsec_hbbuffer_push_all_by_priority.0:%d" % (hbsz + 1), "parsec_hbbuffer_approx_occupency.0:%d" % (hbsz + 1)],
+                    units=[HB, "parsec/hbbuffer.h", "parsec/class/list_item.h"], object_bits=10, timeout=timeout, tiers=tiers, mem_gb=8,
+                    patches=[("parsec/hbbuffer.h", r"items\[1\]", "items[VP_HBSZ]")] + CVP,
+                    info={"symbolic": ["buffer size 1..%d" % hbsz, "which slots are occupied", "ring length 1..%d" % nring, "priorities (any int32)", "distance 0..2"],
+                          "enumerated": ["operation kind", "canonical task naming"], "stubs": ["parent_push_fct (records store, ring head, distance)"],
+                          "patches": ["hbbuffer.h items[1] -> items[VP_HBSZ]", "COMPARISON_VAL integer cast -> char* arithmetic"],
+                          "bounds": {"slots": hbsz, "ring": nring, "CAS retry loops": "1 iteration (sequential; unwinding assertion shows no retry)"}, "functions": HBF[op]}))
+    for op in MHOPS:
+        mh(op, 5)
+        if op != "create":
+            mh(op, 7, tiers=("thorough",), timeout=3400)
     for op in HBOPS:
         hb(op, 3, 4)
+        if op != "new":
+            hb(op, 4, 4, tiers=("thorough",), timeout=3400)
     return qs
 
 def mutants(ctx):
-    return []
+    return [
+        Mutant("push_all_overflow_rest_dropped", HB, "    if( NULL != next ) {\n        parsec_list_item_ring_push(next, elt);\n    }", "", queries=["hbb_push_all_b3r4"]),
+        Mutant("push_prio_evicts_the_best", HB, "            if( A_LOWER_PRIORITY_THAN_B(candidate, best_context, parsec_execution_context_priority_comparator) ) {",
+               "            if( A_HIGHER_PRIORITY_THAN_B(candidate, best_context, parsec_execution_context_priority_comparator) ) {", queries=["hbb_push_prio_b3r4"]),
+        Mutant("push_prio_earlier_ejected_lost", HB, "                    if( NULL != ejected ) {\n                        parsec_list_item_ring_merge( (parsec_list_item_t*)best_context, ejected );\n                    }", "",
+               queries=["hbb_push_prio_b3r4"]),
+        Mutant("push_prio_rest_of_list_lost", HB, "            if( NULL != list )\n                parsec_list_item_ring_merge( ejected, list );", "", queries=["hbb_push_prio_b3r4", "hbb_seq_b3r4"]),
+        Mutant("pop_best_returns_worst", HB, "            if( (NULL == best_elt) || A_HIGHER_PRIORITY_THAN_B(candidate, best_elt, priority_offset) ) {",
+               "            if( (NULL == best_elt) || A_LOWER_PRIORITY_THAN_B(candidate, best_elt, priority_offset) ) {", queries=["hbb_pop_best_b3r4"]),
+        Mutant("pop_best_first_nonempty", HB, "            if( (NULL == best_elt) || A_HIGHER_PRIORITY_THAN_B(candidate, best_elt, priority_offset) ) {",
+               "            if( (NULL == best_elt) ) {", queries=["hbb_seq_b3r4"]),
+        Mutant("heap_insert_top_not_updated", MH, "            if (parent == heap->top)\n                heap->top = elem;", "", queries=["heap_insert_s5"]),
+        Mutant("heap_insert_grandparent_link_missing", MH, "                if (grandparent->super.list_prev /* left */ == (parsec_list_item_t*)parent)\n                    grandparent->super.list_prev = (parsec_list_item_t*)elem;",
+               "                if (0)\n                    grandparent->super.list_prev = (parsec_list_item_t*)elem;", queries=["heap_insert_s5"]),
+        Mutant("heap_remove_ignores_bigger_right_child", MH, "                    if (prev != NULL && prev->priority > bubbler->priority &&\n                        (next == NULL || prev->priority >= next->priority)) {",
+               "                    if (prev != NULL && prev->priority > bubbler->priority) {", queries=["heap_remove_s5"]),
+        Mutant("heap_remove_size_not_decremented", MH, "            heap->size--;\n            heap->priority = heap->top->priority;", "            heap->priority = heap->top->priority;", queries=["heap_remove_s5"]),
+        Mutant("heap_split_left_size_off_by_one", MH, "            (*new_heap_ptr)->size = (size & ~highBit) + twoBit;", "            (*new_heap_ptr)->size = (size & ~highBit) + twoBit - 1;", queries=["heap_split_s5"]),
+        Mutant("heap_split_priority_of_old_heap_stale", MH, "        heap->top = (parsec_task_t*)heap->top->super.list_next;\n        heap->priority = heap->top->priority;", "        heap->top = (parsec_task_t*)heap->top->super.list_next;", queries=["heap_split_s5"]),
+    ]
+
+CLAIMED = False
+MANIFEST = {}
